@@ -241,6 +241,9 @@ func validate(c Case) error {
 		if ph.Mode != "sched" && ph.Mode != "storm" {
 			return fmt.Errorf("bad mode %q", ph.Mode)
 		}
+		if ph.Hold && ph.Mode != "sched" {
+			return fmt.Errorf("hold in a storm phase")
+		}
 		if len(ph.Callers) > 16 {
 			return fmt.Errorf("too many callers")
 		}
@@ -266,7 +269,7 @@ func validate(c Case) error {
 		}
 		for _, e := range ph.Events {
 			switch e.Op {
-			case "release":
+			case "release", "unhold":
 			case "arrive", "cancel", "expire": // an expire of a caller that has no near deadline is ignored
 				if e.Caller < 0 || e.Caller >= len(ph.Callers) {
 					return fmt.Errorf("event caller out of range")
